@@ -412,19 +412,19 @@ def eval_dom(samples, complete_cap):
                      f"[if cfg_check f {c['cout']} {c['cin']} R then 1%Z else 0%Z; if seteqN R {c['reach']} then 1%Z else 0%Z; "
                      f"if dom_check f R D then 1%Z else 0%Z; {comp}; if idom_check R D {c['I']} then 1%Z else 0%Z; "
                      f"if df_check f R D {c['DF']} then 1%Z else 0%Z]")
-    return coqrun.eval_zlists(IMPORTS, exprs, "c14d_dom", shard=max(1, (len(exprs) + 5) // 6), timeout=600) if exprs else []
+    return coqrun.eval_zlists(IMPORTS, exprs, "c14d_dom", shard=max(1, min(60, (len(exprs) + 5) // 6)), timeout=1500) if exprs else []
 
 
 def eval_ssa(samples):
     exprs = [f"let f : func := {s['func']} in let R := {s['R']} in let D := {s['D']} in "
              "[if dom_check f R D then 1%Z else 0%Z; if ssa_check f R D then 1%Z else 0%Z; if single_def_check f then 1%Z else 0%Z]"
              for s in samples]
-    return coqrun.eval_zlists(IMPORTS, exprs, "c14d_ssa", shard=max(1, (len(exprs) + 5) // 6), timeout=600) if exprs else []
+    return coqrun.eval_zlists(IMPORTS, exprs, "c14d_ssa", shard=max(1, min(60, (len(exprs) + 5) // 6)), timeout=1500) if exprs else []
 
 
 def eval_dfg(samples):
     exprs = [f"[if dfg_check {s['func']} {nlist(range(s['nvars']))} {s['outs']} {s['ins']} then 1%Z else 0%Z]" for s in samples]
-    return coqrun.eval_zlists(IMPORTS, exprs, "c14d_dfg", shard=max(1, (len(exprs) + 5) // 6), timeout=600) if exprs else []
+    return coqrun.eval_zlists(IMPORTS, exprs, "c14d_dfg", shard=max(1, min(60, (len(exprs) + 5) // 6)), timeout=1500) if exprs else []
 
 
 # ------------------------------------------------------------------ hand-written CFG shapes (always part of the run)
@@ -625,9 +625,9 @@ def part_dom(ctx):
     if obs.errors:
         ctx.violation("correspondence-broken", "cannot export an analysis result: " + obs.errors[0], {"errors": obs.errors[:5]})
     quick = ctx.tier == "quick"
-    doms = pick(list(obs.dom.values()), 40 if quick else 100000, rnd, "nblocks")
-    ssas = pick(list(obs.ssa.values()), 70 if quick else 100000, rnd, "ninsts")
-    dfgs = pick(list(obs.dfg.values()), 30 if quick else 100000, rnd, "ninsts")
+    doms = pick(list(obs.dom.values()), 40 if quick else 900, rnd, "nblocks")
+    ssas = pick(list(obs.ssa.values()), 70 if quick else 900, rnd, "ninsts")
+    dfgs = pick(list(obs.dfg.values()), 30 if quick else 500, rnd, "ninsts")
     stats = {"programs": len(progs), "compile_failures": nfail, "compile_seconds": round(t_compile, 1), "calls": obs.calls,
              "distinct": {"dom": len(obs.dom), "ssa": len(obs.ssa), "dfg": len(obs.dfg)}, "too_big_skipped": obs.skipped_big,
              "functions_with_unreachable_blocks_at_dominator_analysis": obs.unreachable_at_dom,
